@@ -1,2 +1,28 @@
-From Tramp Require Import Model.Base Model.Sys Props.C06.
-Print Assumptions C06_placeholder.
+From Tramp Require Import Model.Base Model.Fee Model.Classify Model.Node Model.Provider Model.ProviderSys Model.Sys.
+From Tramp Require Import Proofs.SysBasics Proofs.SysShape Proofs.SysTheorems Proofs.SysTimers Proofs.SysReach Proofs.SysCalls Proofs.SysNode Proofs.SysSafety Props.C06.
+Check C06_held_or_answered : forall c s h,
+  (exists en, entry_ (pl (fst (step c s (EvHtlc h)))) = Some en /\ In h (listeners en)) \/
+  (exists r, In (OResp (hid h) r) (snd (step c s (EvHtlc h)))).
+Check C06_answered_together_once : forall c s ev,
+  resps (snd (step c s ev)) = [] \/
+  exists r, resps (snd (step c s ev)) = map (fun h => OResp (hid h) r) (held c s ev) /\ entry_ (pl (fst (step c s ev))) = None.
+Check C06_no_panic : forall c n t0 h0 a0 evs ev,
+  node_ok n -> hist_wf c (sys_start n t0 h0 a0) evs ->
+  let s := after c n t0 h0 a0 evs in
+  ~ In OPanic (snd (step c s ev)) /\ forall i x, nth_error (lcs (pl s)) i = Some x -> l_pc x <> PPanicked.
+Check C06_never_stuck : forall c n t0 h0 a0 evs e,
+  node_ok n -> hist_wf c (sys_start n t0 h0 a0) evs ->
+  let s := after c n t0 h0 a0 evs in
+  entry_ (pl s) = Some e ->
+  exists i x, nth_error (lcs (pl s)) i = Some x /\ attached (l_pc x) = true /\
+    ((exists d, l_pc x = PSelect d /\ now s < d /\ d <= now s + mpp_ms c) \/
+     (awaits (l_pc x) <> [] /\ forall k, In k (awaits (l_pc x)) -> exists cl, nth_error (calls s) k = Some cl /\ live (c_st cl))).
+Check C06_answered_at_deadline : forall c s dt en i x dl,
+  entry_ (pl s) = Some en -> nth_error (lcs (pl s)) i = Some x -> l_pc x = PSelect dl -> dl <= now s + dt ->
+  resps (snd (step c s (EvTick dt))) = map (fun h => OResp (hid h) r_tramp_fail) (listeners en) /\
+  entry_ (pl (fst (step c s (EvTick dt)))) = None.
+Print Assumptions C06_held_or_answered.
+Print Assumptions C06_answered_together_once.
+Print Assumptions C06_no_panic.
+Print Assumptions C06_never_stuck.
+Print Assumptions C06_answered_at_deadline.
